@@ -505,7 +505,14 @@ fn errprop(c: &Value) -> Value {
     let seed = c["seed"].as_u64().unwrap_or(1);
     let n = c["mutants"].as_u64().unwrap_or(8);
     let r = std::panic::catch_unwind(std::panic::AssertUnwindSafe(|| {
-        let toks = match tokenize_loc(d.as_ref(), sql, true) { Ok(t) => t, Err(_) => return json!({"status":"skip"}) };
+        let toks = match tokenize_loc(d.as_ref(), sql, true) {
+            Ok(t) => t,
+            // a text the tokenizer rejects: the error value of the text itself is what is checked
+            Err(_) => return match check_error(d.as_ref(), sql) {
+                Some(p) => json!({"status":"bad","variant":sql,"problem":p}),
+                None => json!({"status":"ok","rejected":1,"accepted":0}),
+            },
+        };
         let chars: Vec<char> = sql.chars().collect();
         let offs = token_offsets(sql, &toks);
         for i in 0..toks.len() { if offs[i] == usize::MAX || offs[i] >= offs[i+1] || offs[i+1] > chars.len() { return json!({"status":"skip"}); } }
